@@ -20,7 +20,7 @@
    "update"
   ]
  },
- "detail": "C04: test_x_cls.py: modified although every test in it is marked xfail\ntest_x_mod.py: modified although every test in it is marked xfail\n--- session output (tail)\n\u001b[32mPASSED\u001b[0m test_t.py::\u001b[1mtest_mixed\u001b[0m\n\u001b[32mPASSED\u001b[0m test_t.py::\u001b[1mtest_loop_fix\u001b[0m\n\u001b[32mPASSED\u001b[0m test_t.py::\u001b[1mtest_second_wrong\u001b[0m\n\u001b[33mXFAIL\u001b[0m test_x.py::\u001b[1mtest_x_create\u001b[0m\n\u001b[33mXFAIL\u001b[0m test_x.py::\u001b[1mtest_x_fix\u001b[0m\n\u001b[33mXFAIL\u001b[0m test_x_cls.py::\u001b[1mTestX::test_x_cls_create\u001b[0m\n\u001b[33mXFAIL\u001b[0m test_x_cls.py::\u001b[1mTestX::test_x_cls_fix\u001b[0m\n\u001b[33mXFAIL\u001b[0m test_x_mod.py::\u001b[1mtest_x_mod_create\u001b[0m\n\u001b[33mXFAIL\u001b[0m test_x_mod.py::\u001b[1mtest_x_mod_fix\u001b[0m\n\u001b[33mXPASS\u001b[0m test_x_cls.py::\u001b[1mTestX::test_x_cls_create\u001b[0m\n\u001b[33mXPASS\u001b[0m test_x_cls.py::\u001b[1mTestX::test_x_cls_fix\u001b[0m\n\u001b[33mXPASS\u001b[0m test_x_mod.py::\u001b[1mtest_x_mod_create\u001b[0m\n\u001b[33mXPASS\u001b[0m test_x_mod.py::\u001b[1mtest_x_mod_fix\u001b[0m\n\u001b[31mERROR\u001b[0m test_t.py::\u001b[1mtest_create\u001b[0m - Failed: your snapshot is missing one value.\n\u001b[31mERROR\u001b[0m test_t.py::\u001b[1mtest_fix\u001b[0m - Failed: some snapshots in this test have incorrect values.\n\u001b[31mERROR\u001b[0m test_t.py::\u001b[1mtest_in_create\u001b[0m - Failed: your snapshot is missing one value.\n\u001b[31mERROR\u001b[0m test_t.py::\u001b[1mtest_in_fix\u001b[0m - Failed: some snapshots in this test have incorrect values.\n\u001b[31mERROR\u001b[0m test_t.py::\u001b[1mtest_ge_fix\u001b[0m - Failed: some snapshots in this test have incorrect values.\n\u001b[31mERROR\u001b[0m test_t.py::\u001b[1mtest_le_fix\u001b[0m - Failed: some snapshots in this test have incorrect values.\n\u001b[31mERROR\u001b[0m test_t.py::\u001b[1mtest_key_create\u001b[0m - Failed: your snapshot is missing 2 values.\n\u001b[31mERROR\u001b[0m test_t.py::\u001b[1mtest_key_fix\u001b[0m - Failed: some snapshots in this test have incorrect values.\n\u001b[31mERROR\u001b[0m test_t.py::\u001b[1mtest_mixed\u001b[0m - Failed: some snapshots in this test have incorrect values.\n\u001b[31mERROR\u001b[0m test_t.py::\u001b[1mtest_loop_fix\u001b[0m - Failed: some snapshots in this test have incorrect values.\n\u001b[31mERROR\u001b[0m test_t.py::\u001b[1mtest_second_wrong\u001b[0m - Failed: some snapshots in this test have incorrect values.\n\u001b[31m============= \u001b[32m18 passed\u001b[0m, \u001b[33m6 xfailed\u001b[0m, \u001b[33m4 xpassed\u001b[0m, \u001b[31m\u001b[1m11 errors\u001b[0m\u001b[31m in 1.78s\u001b[0m\u001b[31m ==============\u001b[0m"
+ "detail": "C04: test_x_cls.py: modified although every test in it is marked xfail\ntest_x_mod.py: modified although every test in it is marked xfail\n--- session output (tail)\n\u001b[32mPASSED\u001b[0m test_t.py::\u001b[1mtest_mixed\u001b[0m\n\u001b[32mPASSED\u001b[0m test_t.py::\u001b[1mtest_loop_fix\u001b[0m\n\u001b[32mPASSED\u001b[0m test_t.py::\u001b[1mtest_second_wrong\u001b[0m\n\u001b[33mXFAIL\u001b[0m test_x.py::\u001b[1mtest_x_create\u001b[0m\n\u001b[33mXFAIL\u001b[0m test_x.py::\u001b[1mtest_x_fix\u001b[0m\n\u001b[33mXFAIL\u001b[0m test_x_cls.py::\u001b[1mTestX::test_x_cls_create\u001b[0m\n\u001b[33mXFAIL\u001b[0m test_x_cls.py::\u001b[1mTestX::test_x_cls_fix\u001b[0m\n\u001b[33mXFAIL\u001b[0m test_x_mod.py::\u001b[1mtest_x_mod_create\u001b[0m\n\u001b[33mXFAIL\u001b[0m test_x_mod.py::\u001b[1mtest_x_mod_fix\u001b[0m\n\u001b[33mXPASS\u001b[0m test_x_cls.py::\u001b[1mTestX::test_x_cls_create\u001b[0m\n\u001b[33mXPASS\u001b[0m test_x_cls.py::\u001b[1mTestX::test_x_cls_fix\u001b[0m\n\u001b[33mXPASS\u001b[0m test_x_mod.py::\u001b[1mtest_x_mod_create\u001b[0m\n\u001b[33mXPASS\u001b[0m test_x_mod.py::\u001b[1mtest_x_mod_fix\u001b[0m\n\u001b[31mERROR\u001b[0m test_t.py::\u001b[1mtest_create\u001b[0m - Failed: your snapshot is missing one value.\n\u001b[31mERROR\u001b[0m test_t.py::\u001b[1mtest_fix\u001b[0m - Failed: some snapshots in this test have incorrect values.\n\u001b[31mERROR\u001b[0m test_t.py::\u001b[1mtest_in_create\u001b[0m - Failed: your snapshot is missing one value.\n\u001b[31mERROR\u001b[0m test_t.py::\u001b[1mtest_in_fix\u001b[0m - Failed: some snapshots in this test have incorrect values.\n\u001b[31mERROR\u001b[0m test_t.py::\u001b[1mtest_ge_fix\u001b[0m - Failed: some snapshots in this test have incorrect values.\n\u001b[31mERROR\u001b[0m test_t.py::\u001b[1mtest_le_fix\u001b[0m - Failed: some snapshots in this test have incorrect values.\n\u001b[31mERROR\u001b[0m test_t.py::\u001b[1mtest_key_create\u001b[0m - Failed: your snapshot is missing 2 values.\n\u001b[31mERROR\u001b[0m test_t.py::\u001b[1mtest_key_fix\u001b[0m - Failed: some snapshots in this test have incorrect values.\n\u001b[31mERROR\u001b[0m test_t.py::\u001b[1mtest_mixed\u001b[0m - Failed: some snapshots in this test have incorrect values.\n\u001b[31mERROR\u001b[0m test_t.py::\u001b[1mtest_loop_fix\u001b[0m - Failed: some snapshots in this test have incorrect values.\n\u001b[31mERROR\u001b[0m test_t.py::\u001b[1mtest_second_wrong\u001b[0m - Failed: some snapshots in this test have incorrect values.\n\u001b[31m============= \u001b[32m18 passed\u001b[0m, \u001b[33m6 xfailed\u001b[0m, \u001b[33m4 xpassed\u001b[0m, \u001b[31m\u001b[1m11 errors\u001b[0m\u001b[31m in 7.80s\u001b[0m\u001b[31m ==============\u001b[0m"
 }
 """
 
